@@ -28,6 +28,7 @@ func init() {
 			{ID: "C17.6", Desc: "enabling encryption without a usable key fails at open", Run: ruleC17_6, MinSites: 1},
 			{ID: "C17.6", Desc: "an entry is handed out only for the key it was stored under (a file moved between keys is a miss)", Run: func(c *Ctx) { ruleEntryBelongsToKey(c, "C17.6") }, MinSites: 1},
 			{ID: "C17.7", Desc: "the DSN reader looks at every value of the encrypt parameter", Run: func(c *Ctx) { ruleDSNAllEncryptValues(c, "C17.7") }, MinSites: 1},
+			{ID: "C17.8", Desc: "every Set encrypts and writes anew (no success return before the write; equal values give different ciphertexts)", Run: func(c *Ctx) { ruleC15_1(c); renameRule(c, "C15.1", "C17.8") }, MinSites: 1},
 		},
 	})
 }
